@@ -51,14 +51,14 @@ PROPS = {
     "C01": rt(700, 12000, ["serve-with-params", "serve-user"],
         "random route tables (1-12 routes, shared prefixes, sibling parameter branches, '-' names, interceptors, regexps) after Handle/Remove/Clean histories; "
         "6-30 probes per table (instantiated patterns, mutated paths, raw bytes); non-trivial = a probe that captured parameters or reached a user handler",
-        props=["TreeMatch"],
-        level_text="Theorems over every tree, path and parameter set of the Gallina model: C01_match_children_sound (a match is a walk through child segments whose seg_match accepted, parameters only ever lose abandoned keys), C01_seg_match_sound (a segment consumes literal text byte for byte / a value its constraint accepts followed by its literal suffix), C01_404_no_new_params. The statement against the pattern text (path = pattern instantiated, keys exactly the capturing ones) is decided on the implementation by the extracted oracle inst_match/same_keys over an independent tokenizer.",
-        level_note="partial: the theorems quantify over arbitrary trees but the link 'walk => pattern instantiation' needs the tree invariants I1/I2/I7 (labels spell the pattern, names distinct along a chain), which are checked at run time on every reached state through the state-dump correspondence, not proved preserved by add/remove/clean.",
-        partial=["C01_dispatch_sound_full (needs Inv preservation by add_segment/split/remove/clean)"]),
+        props=["TreeMatch", "C01text", "C02order"],
+        level_text="Over EVERY history of Handle/Remove/Clean/Use and every request: C01_dispatch_text(_strong) - the reported node's pattern is the concatenation of the labels on the way down and the request path is the same chain with every label replaced by what it consumed (literal text byte for byte; a value its constraint accepts followed by the label's literal suffix) - from C01_pat_reachable (a child's pattern = parent's pattern ++ label, proved preserved through the CPS add_segment/split, remove, clean, use), C01_labels_reachable (every label is literal text or one {..} token + suffix), C01_idx_lit_reachable (the index jump never lands on a capturing child) and C01_match_children_sound_partial / C01_seg_match_sound. C01_404_exact_params / C01_404_no_new_params: a 404 reports no parameter it did not start with. *_refuted theorems show each side condition is necessary on arbitrary (unreachable) trees.",
+        level_note="partial in one respect: the side condition names_fresh_at (a capturing node has no descendant with the same parameter name - what makes 'undo the abandoned child's capture' exact) is proved necessary and is checked on every reached state by the executable invariant tree_inv_b, but its preservation over histories is not proved (it follows from Split rejecting duplicate names; needs the set of accepted patterns as ghost state). The token-level oracle (independent tokenizer, keys exactly the capturing ones) judges the implementation on every probe.",
+        partial=["names_fresh_at over histories not proved (checked on every reached state)"]),
     "C02": rt(700, 12000, ["serve-with-params", "serve-user"],
         "add-only tables of 1-14 routes in random registration orders incl. >=5 literal siblings; probes as C01, ASCII; the table-only resolver `resolve` (Spec/Resolve.v) is evaluated on every probe",
-        props=["TreeMatch"],
-        level_text="C02_shortest_capture: for every matcher function, suffix and path, find_split returns the SHORTEST accepted value followed by the literal suffix (no widening) - proved for all inputs. The full refinement 'match_children on the tree built from a table = outcomes(table)' is stated as the executable resolver Spec/Resolve.v and decided on the implementation on every probe.",
+        props=["TreeMatch", "C02order"],
+        level_text="C02_shortest_capture: for every matcher function, suffix and path, a parameter takes the SHORTEST accepted value that is followed by its literal suffix (no widening) - all inputs. C02_order_reachable / C02_literal_children_first / C02_sort_node_sorted: in every reachable tree the children of every node are ordered literal < interceptor < regexp < named and every index entry points at a literal child, so depth-first search tries the kinds in the documented priority (proved preserved through registration incl. splits, removal, clean, use). The full refinement 'match on the tree built from a table = outcomes(table)' is stated as the executable resolver Spec/Resolve.v and decided on the implementation on every probe.",
         level_note="partial: kind-priority / first-byte-index / radix-split refinement to the table resolver (Repr invariant) is not proved; it is checked by evaluating the extracted resolver against implementation and model.",
         partial=["C02_priority (refinement tree -> outcomes) not proved"]),
     "C03": rt(350, 6000, ["remove", "clean"],
@@ -69,14 +69,14 @@ PROPS = {
         partial=["C03_refinement (abs_tree (step t op) = table_step (abs_tree t) op) not proved"]),
     "C04": rt(350, 6000, ["serve-options", "serve-405"],
         "histories as C03 (40% removals, WithTrace 50%) with OPTIONS and an unused method on every pool pattern and OPTIONS * after every step",
-        props=["C04"],
-        level_text="C04_spec_exact / C04_spec_has_options / C04_spec_head_iff_get / C04_spec_trace: the specified Allow set of a route is exactly registered methods + HEAD iff GET + OPTIONS + TRACE iff configured, for every entry. Node methods, Allow of OPTIONS/405 and Routes() of the implementation are compared with it after every step; OPTIONS * against the used-method set.",
-        level_note="partial: that the tree's bit-set and counters always equal the table's (I6/I8) is checked on every step, not proved.",
-        partial=["C04_allow_exact over tree histories not proved"]),
+        props=["C04", "C04hist", "C04count"],
+        level_text="C04_allow_exact_reachable: in EVERY reachable tree (any history of Handle/Remove/Clean/Use incl. rejected calls) the method set rendered for every route node is exactly its registered methods (+HEAD iff GET, OPTIONS always) plus TRACE iff configured - from the node invariant hs_ok proved preserved by tree_add/remove/clean/use (C04_hs_*) and the bit-set rendering lemma C04_bits_render (finite sweep over all key subsets); C08_head_iff_get_reachable. C04_spec_exact etc.: the specified Allow set on the abstract table. C04_counters_reachable / C04_options_star_exact: in every reachable state the tree-wide counters are exactly the per-method numbers of live routes, and OPTIONS * lists exactly OPTIONS, TRACE when configured and the methods registered on at least one live route (HEAD never).",
+        level_note="proved at tree level for every history; that Routes()/Node().Methods() read the same bit-sets is the model's tree_routes/serve_obs, compared on every step.",
+        partial=[]),
     "C05": rt(500, 10000, ["serve", "handle-rejected"],
         "40% malformed / arbitrary-byte patterns, reserved/unknown/duplicate methods, raw paths ('', '*', NUL, 0xff, long), Remove/Clean histories, URL and CheckSyntax on the same strings; every call under recover()",
-        props=["TreeMatch", "C05hist"], extra_runs=[("C14", "C05m", 0.4), ("C15", "C05m", 0.3), ("C13", "C05g", 0.3)],
-        level_text="C05_serve_total: for EVERY history of Handle/Remove/Clean/Use from a new tree (any patterns, any methods, rejected calls included) and every request (any method bytes, any path bytes incl. '' and '*'), dispatch returns a handler and never faults - by the invariant tree_safe (index entries in range, 405 handler wherever handlers exist, root answers) proved for new_tree and preserved by tree_add (through the continuation-passing add_segment/split), tree_remove, tree_clean and tree_apply_mw (C05_add_safe, C05_remove_safe, C05_clean_safe, C05_use_safe, C05_handler_total); C05_match_no_panic, C05_build_indexes_ok, C05_sort_node_idx_ok underneath. Every Go fault site of the modelled code is an explicit Panic result in the model, compared with the implementation's recover() classification.",
+        props=["TreeMatch", "C05hist", "C05parse"], extra_runs=[("C14", "C05m", 0.4), ("C15", "C05m", 0.3), ("C13", "C05g", 0.3)],
+        level_text="C05_serve_total: for EVERY history of Handle/Remove/Clean/Use from a new tree (any patterns, any methods, rejected calls included) and every request (any method bytes, any path bytes incl. '' and '*'), dispatch returns a handler and never faults - by the invariant tree_safe (index entries in range, 405 handler wherever handlers exist, root answers) proved for new_tree and preserved by tree_add (through the continuation-passing add_segment/split), tree_remove, tree_clean and tree_apply_mw (C05_add_safe, C05_remove_safe, C05_clean_safe, C05_use_safe, C05_handler_total); C05_match_no_panic, C05_build_indexes_ok, C05_sort_node_idx_ok underneath. C05_check_syntax_no_panic / C05_split_no_panic / C05_url_nonstrict_no_panic / C05_mux_url_no_panic: CheckSyntax and URL never fault on ANY byte string; C05_new_segment_panic_iff characterises exactly when the internal NewSegment would fault (a ':' before the first '{' - refuted for arbitrary input, proved unreachable through Split). Every Go fault site of the modelled code is an explicit Panic result in the model, compared with the implementation's recover() classification.",
         level_note="proved for dispatch (ServeHTTP's matching and handler lookup). Not proved: that the registration functions themselves never return the model's Panic (slice bounds inside Split/NewSegment, fuel sufficiency of add_segment) - covered by the byte-level fuzzing correspondence; Hosts/version matchers and net/http glue are exercised, not proved.",
         partial=["C05_handle_error_or_ok (tree_add never returns Panic) not proved"]),
     "C06": {"kind": "conc", "scenario": "c06", "props": ["C06", "ConcGeneric"],
@@ -103,9 +103,9 @@ PROPS = {
         trust=["http.ResponseWriter contract modelled (Model/Http.v), net/http itself not verified"]),
     "C09": rt(350, 6000, ["serve-user", "serve-405", "serve-options"],
         "programs interleaving Use, Prefix/Resource creation (nesting <= 4) and Handle with per-route middlewares; every handler kind probed; the full wrapped handler term is compared",
-        props=["C09table"], extra_runs=[("C13", "C09g", 0.5)],
-        level_text="C09_table_is_rendered_records: for every history of Handle/Remove/Clean/Use the stored handler of every (pattern, method) is the registration's core wrapped by the registration's middlewares (call's own, then facade's) and then by ALL Router.Use middlewares in order - whatever the interleaving; C09_apply_mw_nesting: later list elements are outer, every layer carries (method, pattern, router); C09_auto_handlers_keep_first_registration.",
-        level_note="proved on the abstract table machine; the tree stores exactly these terms (compared structurally on every probe).",
+        props=["C09table", "C09tree"], extra_runs=[("C13", "C09g", 0.5)],
+        level_text="C09_router_reachable (TREE level, every history of Handle/Remove/Clean/Use on a router): every handler stored at a node under method m is a core wrapped by the registration's middlewares and then by ALL Router.Use middlewares in the order given (most recent outermost) whatever the interleaving, every layer carrying exactly (m, the node's full pattern, the router name) - C09_layers_carry_arguments, C09_use_outermost, C09_404_trace_only_use; it uses C09_reached_pattern (registration reaches the node whose pattern is the registered text, proved through the CPS add_segment/split) and C09_split_spells_pattern. On the abstract table: C09_table_is_rendered_records, C09_auto_handlers_keep_first_registration, C09_apply_mw_nesting.",
+        level_note="proved for Router; Prefix/Resource lists are concatenated in front of the router's (C19 theorems); Group.Use is r_use on every router (C13 theorems) and compared structurally in the group suite.",
         trust=["middleware factories are symbolic (HWrap terms); the harness's factories record their arguments"]),
     "C10": rt(500, 8000, ["url-ok", "url-err"],
         "well-formed and documented-malformed patterns x params maps (present/missing/extra keys, arbitrary bytes, prefix/suffix/infix matches) x strict/non-strict x live/non-live; through Router and facades",
@@ -123,12 +123,12 @@ PROPS = {
         level_note="C12_grant / C12_preflight as first stated are false for a configured header list consisting of one empty string (joined to \"\" = not configured); proved with that case excluded (_partial_hyp) and in closed form (_partial)."),
     "C13": rt(300, 5000, ["greq-U:h1", "greq-U:h2", "greq-NA", "greq-OP"],
         "groups of 1-4 routers with Hosts / path-version / header-version / nil / And-Or nests (depth <= 2) in which an early member mutates and a later one rejects; Add/New/Remove/Use histories; 14 requests per case over hosts x version prefixes x Accept x paths",
-        suite="C13", props=["C13"],
+        suite="C13", props=["C13", "C14tree"],
         level_text="C13_reject_clean (by induction over the matcher AST: a rejecting matcher, also inside And/Or, leaves request and parameters untouched), C13_first_accepting, C13_none_accepts, C13_or_first, C13_and_accepts_all, C13_names_unique, C13_add_duplicate_rejected, C13_remove, C13_notfound_wrapped.",
-        level_note="Hosts members are assumed 'clean' (hosts_clean: a rejection leaves the parameters alone), which holds when route parameter names are disjoint from names already in the context; custom matchers are outside the model."),
+        level_note="Hosts members are assumed 'clean' (a rejection leaves the parameters alone). For every reachable Hosts tree this is PROVED when the context is empty (C13_hosts_clean_empty_ctx: the case Group dispatch produces for a top-level Hosts matcher) and when the tree's parameter names and the empty name are not keys of the context (C13_hosts_clean_when_disjoint_partial); C13_hosts_clean_unconditional_refuted shows the disjointness condition is necessary (an incoming parameter with the same name as a domain parameter is deleted by the backtracking undo). Custom matchers are outside the model."),
     "C14": rt(300, 5000, ["hmatch-accept"],
         "Add/Delete/RegisterInterceptor histories over >=6 literal domains + parameterised domains in mixed case; hosts in any case, with ports, brackets, invalid ports, '', '*'; dump after every step",
-        suite="C14", props=["C14"],
+        suite="C14", props=["C14", "C14tree"],
         level_text="C14_normalise_is_lower, C14_strip_port_valid/_invalid, C14_strip_brackets, C14_add_ci, C14_delete_ci, C14_match_uses_normalised; matching itself is the shared tree (C01/C02 theorems).",
         level_note="partial: resolution of the normalised host against the registered domains is decided by the extracted resolver on add-only histories and simple witnesses; non-ASCII hosts are outside the model (strings.ToLower is Unicode-aware)."),
     "C15": rt(300, 5000, ["pv-accept", "hv-accept"],
